@@ -263,7 +263,7 @@ var wantBOMs = []struct {
 
 // R07.3 / R11.1
 var ruleBOMTable = &core.Rule{ID: "R07.3", Min: 7,
-	Doc: "the BOM table is exactly the five Unicode marks with their charset names, no entry is shadowed by an earlier entry that is its prefix, and the lookup returns the name of the first entry that prefixes the input, else the empty string; a hand-written lookup without a table is judged by the path conditions of its returns (exactly the mark's bytes, length bound exactly len(mark)) and folded for each mark",
+	Doc: "the BOM table is exactly the five Unicode marks with their charset names, no entry is shadowed by an earlier entry that is its prefix, and the lookup returns the name of the first entry that prefixes the input, else the empty string; a hand-written lookup without a table is judged by the path conditions of its returns (exactly the mark's bytes, length bound exactly len(mark)) and folded for each mark; a table lookup that matches the marks with bytes.Contains / HasSuffix / Equal instead of HasPrefix is a violation",
 	Run: func(c *core.Ctx, s *core.Sink) {
 		cm := getCharset(c)
 		if cm.bomSwitch {
@@ -1054,7 +1054,7 @@ var ruleASCIIClass = &core.Rule{ID: "R11.4", Min: 256,
 
 // R11.5
 var ruleTrim = &core.Rule{ID: "R11.5", Min: 2,
-	Doc: "the buffer given to utf8.Valid is the input, shortened at most by a final incomplete rune: every re-slice on the way (also inside byte-slice helpers) is control dependent on utf8.FullRune(dropped tail) being false, cuts at a rune start among the last 3 bytes",
+	Doc: "the buffer given to utf8.Valid is the input, shortened at most by a final incomplete rune: every re-slice on the way (also inside byte-slice helpers) is control dependent on utf8.FullRune(dropped tail) being false, cuts at a rune start among the last 3 bytes; the search for that rune start, evaluated on a buffer of continuation bytes, steps over three of them; the cut is not behind a constant-false condition",
 	Run: func(c *core.Ctx, s *core.Sink) {
 		p := getPlain(c)
 		if p.valid == nil {
